@@ -20,181 +20,61 @@ ROOT = os.environ.get('TALLY_REPO', '/repo')
 ALL = [f'C{i:02d}' for i in range(1, 21)]
 
 
-def py_files():
+from sa.sweeps import TRANSFORMS, py_files, t_rename_params      # noqa: E402
+from sa import sweeps                                            # noqa: E402
+
+
+def _one_module(task):
+    """per-module mode: transform a single module and run every pack on the result"""
+    name, rel, packs = task
+    with open(os.path.join(ROOT, rel), encoding='utf-8') as f:
+        s = f.read()
+    try:
+        text = TRANSFORMS[name](s, rel)
+        compile(text, rel, 'exec')
+    except Exception as e:
+        return name, rel, [f'cannot transform: {e}']
+    if ast.dump(ast.parse(text)) == ast.dump(ast.parse(s)):
+        return name, rel, None
     out = []
-    for d, _x, files in os.walk(os.path.join(ROOT, 'src/tally')):
-        for f in files:
-            if f.endswith('.py'):
-                out.append(os.path.relpath(os.path.join(d, f), ROOT))
-    return sorted(out)
+    for pid in packs:
+        pack = importlib.import_module(f'sa.packs.{pid.lower()}')
+        base = core.run_pack(pid, 'quick', pack.check, proj=Project(ROOT))
+        bkeys = {o.key for o in base['ctx'].obligations if o.status == 'fail'} if not base['error'] else set()
+        res = core.run_pack(pid, 'quick', pack.check, proj=Project(ROOT, overlay={rel: text}))
+        if res['error']:
+            out.append(f'{pid}: ANALYSIS-ERROR {res["error"][:200]}')
+            continue
+        new = sorted({o.key for o in res['ctx'].obligations if o.status == 'fail'} - bkeys)
+        if new:
+            out.append(f'{pid}: FALSE ALARMS {new[:6]}')
+        elif res.get('floor_error'):
+            out.append(f'{pid}: floor error {res["floor_error"][:160]}')
+    return name, rel, out
 
 
-def t_reformat(src, rel):
-    return ast.unparse(ast.parse(src)) + '\n'
-
-
-class Renamer(ast.NodeTransformer):
-    def __init__(self, table, suffix):
-        self.table = table
-        self.suffix = suffix
-        self.stack = []
-
-    def _locals_of(self, fnode):
-        # names assigned in this function and used nowhere else (no nested function, no global/nonlocal, not a parameter)
-        assigned, banned = set(), set()
-        params = {a.arg for a in fnode.args.posonlyargs + fnode.args.args + fnode.args.kwonlyargs}
-        if fnode.args.vararg:
-            params.add(fnode.args.vararg.arg)
-        if fnode.args.kwarg:
-            params.add(fnode.args.kwarg.arg)
-
-        def walk(n, top):
-            for c in ast.iter_child_nodes(n):
-                if isinstance(c, (ast.FunctionDef, ast.AsyncFunctionDef, ast.Lambda, ast.ClassDef)):
-                    for x in ast.walk(c):
-                        if isinstance(x, ast.Name):
-                            banned.add(x.id)
-                    if hasattr(c, 'name'):
-                        banned.add(c.name)
-                    continue
-                if isinstance(c, (ast.Global, ast.Nonlocal)):
-                    banned.update(c.names)
-                if isinstance(c, (ast.ListComp, ast.SetComp, ast.DictComp, ast.GeneratorExp)):
-                    for x in ast.walk(c):
-                        if isinstance(x, ast.Name):
-                            banned.add(x.id)      # comprehension scopes: keep it simple
-                    continue
-                if isinstance(c, ast.Name) and isinstance(c.ctx, ast.Store):
-                    assigned.add(c.id)
-                if isinstance(c, (ast.Import, ast.ImportFrom)):
-                    for a in c.names:
-                        banned.add((a.asname or a.name).split('.')[0])
-                if isinstance(c, ast.ExceptHandler) and c.name:
-                    banned.add(c.name)
-                walk(c, top)
-        walk(fnode, fnode)
-        return {n for n in assigned if n not in banned and n not in params and not n.startswith('__')}
-
-    def visit_FunctionDef(self, node):
-        loc = self._locals_of(node)
-        self.stack.append(loc)
-        new_body = []
-        for s in node.body:
-            new_body.append(self.visit(s))
-        node.body = new_body
-        self.stack.pop()
-        return node
-
-    visit_AsyncFunctionDef = visit_FunctionDef
-
-    def visit_Lambda(self, node):
-        return node
-
-    def visit_ListComp(self, node):
-        return node
-    visit_SetComp = visit_DictComp = visit_GeneratorExp = visit_ListComp
-
-    def visit_Name(self, node):
-        if self.stack and node.id in self.stack[-1]:
-            node.id = node.id + self.suffix
-        return node
-
-    def visit_JoinedStr(self, node):
-        self.generic_visit(node)
-        return node
-
-
-def t_rename(src, rel):
-    tree = ast.parse(src)
-    tree = Renamer(None, '_rn').visit(tree)
-    return ast.unparse(tree) + '\n'
-
-
-def t_rename_deep(src, rel):
-    """every plain local of every function renamed with proper scoping (closures and comprehensions included)"""
-    from sa import canon
-    tree = ast.parse(src)
-    for _q, fnode in canon._functions(tree):
-        used = canon._all_ids(fnode)
-        for name, _d in canon.signature(fnode):
-            new = name + '_q'
-            if new in used:
-                continue
-            canon._rename(fnode, name, new)
-    return ast.unparse(tree) + '\n'
-
-
-_PARAM_TABLE = None
-
-
-def _param_table():
-    """{callee simple name: set of parameter names} over the package (class name stands for its __init__)"""
-    global _PARAM_TABLE
-    if _PARAM_TABLE is None:
-        from sa import canon
-        _PARAM_TABLE = {}
-        for rel in py_files():
-            with open(os.path.join(ROOT, rel), encoding='utf-8') as f:
-                tree = ast.parse(f.read())
-            for q, fnode in canon._functions(tree):
-                short = q.rsplit('.', 1)[-1]
-                names = [short]
-                if short == '__init__' and '.' in q:
-                    names.append(q.rsplit('.', 2)[-2])
-                ps = {x for x in canon._params(fnode) if x not in ('self', 'cls')}
-                for nm in names:
-                    _PARAM_TABLE.setdefault(nm, set()).update(ps)
-    return _PARAM_TABLE
-
-
-def t_rename_params(src, rel, calls_only=False):
-    """every parameter (except self/cls) of every function renamed, keyword arguments at call sites following"""
-    from sa import canon
-    table = _param_table()
-    tree = ast.parse(src)
-    if not calls_only:
-        for _q, fnode in canon._functions(tree):
-            used = canon._all_ids(fnode)
-            for name in sorted(canon._params(fnode)):
-                if name in ('self', 'cls') or name + '_p' in used:
-                    continue
-                canon._rename(fnode, name, name + '_p')
-    cls_of = {}
-    for k in ast.walk(tree):
-        if isinstance(k, ast.ClassDef):
-            for c in ast.walk(k):
-                if isinstance(c, ast.Call) and isinstance(c.func, ast.Name) and c.func.id == 'cls':
-                    cls_of[id(c)] = k.name
-    for c in ast.walk(tree):
-        if isinstance(c, ast.Call) and c.keywords:
-            nm = c.func.id if isinstance(c.func, ast.Name) else (c.func.attr if isinstance(c.func, ast.Attribute) else None)
-            nm = cls_of.get(id(c), nm)
-            for kw in c.keywords:
-                if kw.arg and kw.arg in table.get(nm, ()):
-                    kw.arg = kw.arg + '_p'
-    return ast.unparse(tree) + '\n'
-
-
-def t_docstr(src, rel):
-    tree = ast.parse(src)
-    for n in ast.walk(tree):
-        if isinstance(n, (ast.FunctionDef, ast.AsyncFunctionDef)):
-            first = n.body[0]
-            if isinstance(first, ast.Expr) and isinstance(first.value, ast.Constant) and isinstance(first.value.value, str):
-                n.body.insert(1, ast.Expr(ast.Constant('note')))
-            else:
-                n.body.insert(0, ast.Expr(ast.Constant('note')))
-    ast.fix_missing_locations(tree)
-    return ast.unparse(tree) + '\n'
-
-
-TRANSFORMS = {'reformat': t_reformat, 'rename': t_rename, 'rename_deep': t_rename_deep, 'rename_params': t_rename_params, 'docstr': t_docstr}
+def per_module(which, packs):
+    from concurrent.futures import ProcessPoolExecutor
+    tasks = [(n, rel, packs) for n in which for rel in py_files() if n != 'rename_params']
+    bad = 0
+    with ProcessPoolExecutor(max_workers=16) as ex:
+        for name, rel, out in ex.map(_one_module, tasks):
+            if out:
+                bad += 1
+                for line in out:
+                    print(f'{name} {rel}: {line}')
+    print(f'per-module: {len(tasks)} (transform, module) pairs, {bad} not silent')
+    return 1 if bad else 0
 
 
 def main():
+    global ALL
+    if '--per-module' in sys.argv:
+        a = [x for x in sys.argv[1:] if not x.startswith('--')]
+        pk = [x[2:] for x in sys.argv[1:] if x.startswith('--C')] or ALL
+        return per_module(a or [t for t in TRANSFORMS], pk)
     args = [a for a in sys.argv[1:] if not a.startswith('--')]
     packs = [a[2:] for a in sys.argv[1:] if a.startswith('--C')]
-    global ALL
     if packs:
         ALL = packs
     which = args or list(TRANSFORMS)
